@@ -165,3 +165,21 @@ func init() {
 	addMutant(Mutant{Name: "c33-nonptr-default-dropped", Property: "C33", File: "gogen/gogen.go",
 		Old: "\t\t{{- else }}\n\t\tt.{{ $Leaf.Name }} = {{ $Leaf.Default }}\n\t\t{{- end }}\n\t}", New: "\t\t{{- end }}\n\t}", Expect: "exactly-defaulted-leaves"})
 }
+
+func init() {
+	// C29
+	addMutant(Mutant{Name: "c29-parent-dropped", Property: "C29", File: "ypathgen/pathgen.go",
+		Old: "\t\t\tmap[string]interface{}{ {{- .KeyEntriesStr -}} },\n\t\t\tn,\n", New: "\t\t\tmap[string]interface{}{ {{- .KeyEntriesStr -}} },\n\t\t\tnil,\n", Expect: "childConstructor[template]:parent"})
+	addMutant(Mutant{Name: "c29-key-by-varname", Property: "C29", File: "ypathgen/pathgen.go",
+		Old: "keyEntryStrs = append(keyEntryStrs, fmt.Sprintf(`\"%s\": %s`, param.name, param.varName))", New: "keyEntryStrs = append(keyEntryStrs, fmt.Sprintf(`\"%s\": %s`, param.varName, param.varName))", Expect: "KeyEntriesStr#"})
+	addMutant(Mutant{Name: "c29-simplify-any-combo", Property: "C29", File: "ypathgen/pathgen.go",
+		Old: "if simplifyWildcardPaths && comboIndex == 0 {", New: "if simplifyWildcardPaths && len(combo) == 0 || simplifyWildcardPaths && keyN == 1 {", Expect: "KeyEntriesStr#"})
+	addMutant(Mutant{Name: "c29-modifykey-wrong-node", Property: "C29", File: "ygot/path_types.go",
+		Old: "\tn.keys[name] = value\n", New: "\tkeys := map[string]interface{}{}\n\tfor k, v := range n.keys {\n\t\tkeys[k] = v\n\t}\n\tkeys[name] = value\n", Expect: "ModifyKey:writes-key"})
+	addMutant(Mutant{Name: "c29-relpath-cache", Property: "C29", File: "ygot/path_types.go",
+		Old: "\tif len(n.keys) == 0 {\n\t\treturn pathElems, nil\n\t}\n", New: "\tif len(n.keys) == 0 {\n\t\tn.keys = nil\n\t\treturn pathElems, nil\n\t}\n", Expect: "relPath:pure"})
+	addMutant(Mutant{Name: "c29-append-not-prepend", Property: "C29", File: "ygot/path_types.go",
+		Old: "\t\tp = append(rel, p...)\n", New: "\t\tp = append(p, rel...)\n", Expect: "ResolvePath:prepend"})
+	addMutant(Mutant{Name: "c29-builder-flag", Property: "C29", File: "ypathgen/pathgen.go",
+		Old: "\tfor i := 0; i != keyN; i++ {\n\t\tkeyEntryStrs = append(keyEntryStrs, fmt.Sprintf(`\"%s\": \"*\"`, keyParams[i].name))\n\t}\n\tfieldData.KeyEntriesStr = strings.Join(keyEntryStrs, \", \")\n\n\t// There are no initial", New: "\tfor i := 0; i != keyN; i++ {\n\t\tkeyEntryStrs = append(keyEntryStrs, fmt.Sprintf(`\"%s\": \"*\"`, keyParams[i].name))\n\t}\n\tfieldData.KeyEntriesStr = strings.Join(keyEntryStrs[:keyN/2], \", \")\n\n\t// There are no initial", Expect: "KeyEntriesStr#"})
+}
